@@ -16,6 +16,7 @@ REPO = os.environ.get("VERIF_REPO", "/repo")
 WORK = os.path.join(VERIF, ".work")
 SYM = os.path.join(VERIF, "sym")
 NCPU = int(os.environ.get("VERIF_JOBS", "16"))
+BUDGET_FACTOR = int(os.environ.get("VERIF_BUDGET_FACTOR", "3"))
 SECOND_N = int(os.environ.get("VERIF_SECOND_SOLVER_QUERIES", "3"))  # queries per job handed to cvc5 as well (0 = off)
 CXX = "g++"
 CXXFLAGS = ["-std=c++17", "-O1", "-g0", "-w", "-fno-var-tracking"]
@@ -197,7 +198,10 @@ def parse_result(out):
 
 def run_sym(build, job, shard=None):
     exe = build.harness(job.harness, "sym", job.defines)
-    cmd = [exe] + job.argv() + ["--budget", str(job.budget), "--witnesses", str(job.witnesses)]
+    # the budgets in props.py were sized on the development machine; jobs whose overrun would fail the check
+    # (non-soft) get BUDGET_FACTOR times as much, so that a slower or busier machine still concludes
+    budget = job.budget if job.soft else job.budget * BUDGET_FACTOR
+    cmd = [exe] + job.argv() + ["--budget", str(budget), "--witnesses", str(job.witnesses)]
     for k in job.known:
         cmd += ["--known", k]
     if shard is not None:
@@ -210,7 +214,7 @@ def run_sym(build, job, shard=None):
         cmd += ["--smtdump", dump, str(SECOND_N)]
     t0 = time.time()
     try:
-        r = subprocess.run(cmd, stdout=subprocess.PIPE, stderr=subprocess.PIPE, text=True, timeout=job.budget + 120)
+        r = subprocess.run(cmd, stdout=subprocess.PIPE, stderr=subprocess.PIPE, text=True, timeout=budget + 120)
         out, rc = r.stdout, r.returncode
         err = r.stderr[-2000:]
     except subprocess.TimeoutExpired:
